@@ -1,3 +1,4 @@
 import SsoModel.Breaker
 import SsoModel.Singleflight
 import SsoModel.SfWrappers
+import SsoModel.Caches
